@@ -9,6 +9,7 @@ induction over the rounds (no bound on the number of rounds anywhere).
 -/
 import SkinnyVerif.Lemmas.AllConfigs
 import SkinnyVerif.Lemmas.ByteCells
+import SkinnyVerif.Lemmas.GuardLemmas
 
 namespace SkinnyVerif.Properties
 open SkinnyVerif SkinnyVerif.Spec.Skinny SkinnyVerif.Impl SkinnyVerif.Lemmas
@@ -24,11 +25,12 @@ theorem tweakey64_eq (key : Bytes) : tweakey64 key = implTweakey abs64 8 key := 
 /-- SKINNY-128, all three key sizes, every configuration, both directions -/
 theorem C01_skinny128 (t : Tag) (ks0 : KeySched 64) (hlen : 56 ≤ ks0.sched.length) (key blk : Bytes)
     (hk : key.length = 16 ∨ key.length = 32 ∨ key.length = 48) (j2 j3 : BitVec 128) :
-    (setKey (ops128 t) p128 ks0 (some key) key.length j2 j3).1 = 1 ∧
-    ecbEncrypt (ops128 t) p128 (setKey (ops128 t) p128 ks0 (some key) key.length j2 j3).2 blk = encrypt128 key blk ∧
-    ecbDecrypt (ops128 t) p128 (setKey (ops128 t) p128 ks0 (some key) key.length j2 j3).2 blk = decrypt128 key blk := by
-  have hsz : ¬ (key.length < p128.bs ∨ key.length > 3 * p128.bs) := by simp [p128]; omega
-  simp only [setKey, hsz, if_false]
+    (setKey (ops128 t) guards128 p128 ks0 (some key) key.length j2 j3).1 = 1 ∧
+    ecbEncrypt (ops128 t) p128 (setKey (ops128 t) guards128 p128 ks0 (some key) key.length j2 j3).2 blk = encrypt128 key blk ∧
+    ecbDecrypt (ops128 t) p128 (setKey (ops128 t) guards128 p128 ks0 (some key) key.length j2 j3).2 blk = decrypt128 key blk := by
+  have hg : guards128.setKey false (some key).isNone (BitVec.ofNat 32 key.length) = false := by
+    rw [guard128_setKey _ _ (by omega)]; rcases hk with h | h | h <;> simp [h]
+  simp only [setKey, hg, Bool.false_eq_true, if_false]
   have hks := setKeyInner_plain abs128 (ops128 t) (opsG128 t) absOK128 p128 (by decide) ks0 key key.length j2 j3
     (by simp [p128]; omega) (by simp [p128]; omega) (by decide) (by simp [p128]; omega) (by simp [p128]; omega) (by simp [p128]; omega)
   obtain ⟨hkeyed, hrounds, _⟩ := hks
@@ -53,11 +55,12 @@ theorem C01_skinny128 (t : Tag) (ks0 : KeySched 64) (hlen : 56 ≤ ks0.sched.len
 /-- SKINNY-64, all three key sizes, every configuration, both directions -/
 theorem C01_skinny64 (t : Tag) (ks0 : KeySched 32) (hlen : 40 ≤ ks0.sched.length) (key blk : Bytes)
     (hk : key.length = 8 ∨ key.length = 16 ∨ key.length = 24) (j2 j3 : BitVec 64) :
-    (setKey (ops64 t) p64 ks0 (some key) key.length j2 j3).1 = 1 ∧
-    ecbEncrypt (ops64 t) p64 (setKey (ops64 t) p64 ks0 (some key) key.length j2 j3).2 blk = encrypt64 key blk ∧
-    ecbDecrypt (ops64 t) p64 (setKey (ops64 t) p64 ks0 (some key) key.length j2 j3).2 blk = decrypt64 key blk := by
-  have hsz : ¬ (key.length < p64.bs ∨ key.length > 3 * p64.bs) := by simp [p64]; omega
-  simp only [setKey, hsz, if_false]
+    (setKey (ops64 t) guards64 p64 ks0 (some key) key.length j2 j3).1 = 1 ∧
+    ecbEncrypt (ops64 t) p64 (setKey (ops64 t) guards64 p64 ks0 (some key) key.length j2 j3).2 blk = encrypt64 key blk ∧
+    ecbDecrypt (ops64 t) p64 (setKey (ops64 t) guards64 p64 ks0 (some key) key.length j2 j3).2 blk = decrypt64 key blk := by
+  have hg : guards64.setKey false (some key).isNone (BitVec.ofNat 32 key.length) = false := by
+    rw [guard64_setKey _ _ (by omega)]; rcases hk with h | h | h <;> simp [h]
+  simp only [setKey, hg, Bool.false_eq_true, if_false]
   have hks := setKeyInner_plain abs64 (ops64 t) (opsG64 t) absOK64 p64 (by decide) ks0 key key.length j2 j3
     (by simp [p64]; omega) (by simp [p64]; omega) (by decide) (by simp [p64]; omega) (by simp [p64]; omega) (by simp [p64]; omega)
   obtain ⟨hkeyed, hrounds, _⟩ := hks
